@@ -608,31 +608,44 @@ Proof.
   rewrite (div_eq_cross (- rn) (- (Z.of_nat total * p)) rd q) by lia. reflexivity.
 Qed.
 
-(* sptensor.from_function's reading of a request p/q, case by case (t = prod(shape)):
-   rejected  iff  p/q < 0 or p/q >= t;   0 <= p/q < 1: a density, count = ceil(t * p/q), which lies in [0, t] and is
-   positive iff p > 0;   1 <= p/q < t: a count, floor(p/q), which lies in [1, t) *)
+(* sptensor.from_function's reading of a request p/q after /repo 2b4b024 (repair of C20-N3), case by case (t = prod(shape)):
+   rejected  iff  p/q < 0 or p/q > t or t = 0;   p/q = t: SATURATED, count t;   0 <= p/q < 1: a density, count =
+   ceil(t * p/q), which lies in [0, t] and is positive iff p > 0;   1 <= p/q < t: a count, floor(p/q), which lies in [1, t) *)
 Theorem norm_request_cases (total : nat) p q :
   let t := Z.of_nat total in
-  (p < 0 \/ t * Zpos q <= p -> norm_request total p q = None) /\
+  (norm_request total p q = None <-> p < 0 \/ t * Zpos q < p \/ total = 0%nat) /\
+  ((0 < total)%nat -> p = t * Zpos q -> norm_request total p q = Some (true, total)) /\
   (0 <= p < Zpos q -> p < t * Zpos q ->
-     exists c, norm_request total p q = Some c /\ Z.of_nat c = zceil (t * p) q /\
+     exists c, norm_request total p q = Some (false, c) /\ Z.of_nat c = zceil (t * p) q /\
                Zpos q * (Z.of_nat c - 1) < t * p <= Zpos q * Z.of_nat c /\ (c <= total)%nat /\ ((0 < c)%nat <-> 0 < p)) /\
   (Zpos q <= p < t * Zpos q ->
-     exists c, norm_request total p q = Some c /\ Z.of_nat c = p / Zpos q /\
+     exists c, norm_request total p q = Some (false, c) /\ Z.of_nat c = p / Zpos q /\
                Zpos q * Z.of_nat c <= p < Zpos q * (Z.of_nat c + 1) /\ (1 <= c < total)%nat).
 Proof.
-  intros t. unfold norm_request, norm_request_fl. fold t. repeat split.
-  - intros [H|H].
+  intros t. unfold norm_request, norm_request_fl. fold t.
+  assert (Ht : 0 <= t) by (unfold t; lia).
+  assert (Ht0 : t = 0 <-> total = 0%nat) by (unfold t; lia).
+  repeat split.
+  - destruct (Z.ltb_spec p 0); [intros _; now left|].
+    destruct (Z.ltb_spec (t * Zpos q) p); [intros _; right; now left|].
+    destruct (Z.eqb_spec t 0) as [E|E]; [intros _; right; right; now apply Ht0|]. cbn [orb].
+    destruct (Z.eqb_spec p (t * Zpos q)); [discriminate|]. destruct (Z.ltb_spec p (Zpos q)); discriminate.
+  - intros [H|[H|H]].
     + destruct (Z.ltb_spec p 0); [reflexivity|lia].
-    + destruct (Z.ltb_spec p 0); [reflexivity|]. destruct (Z.leb_spec (t * Zpos q) p); [reflexivity|lia].
-  - intros H1 H2. destruct (Z.ltb_spec p 0); [lia|]. destruct (Z.leb_spec (t * Zpos q) p); [lia|]. cbn [orb].
+    + destruct (Z.ltb_spec (t * Zpos q) p); [now rewrite orb_true_r|lia].
+    + apply Ht0 in H. rewrite H. cbn [Z.eqb]. now rewrite orb_true_r.
+  - intros Hpos ->. destruct (Z.ltb_spec (t * Zpos q) 0); [nia|]. rewrite Z.ltb_irrefl.
+    destruct (Z.eqb_spec t 0); [lia|]. cbn [orb]. now rewrite Z.eqb_refl.
+  - intros H1 H2. destruct (Z.ltb_spec p 0); [lia|]. destruct (Z.ltb_spec (t * Zpos q) p); [lia|].
+    destruct (Z.eqb_spec t 0); [nia|]. cbn [orb]. destruct (Z.eqb_spec p (t * Zpos q)); [lia|].
     destruct (Z.ltb_spec p (Zpos q)); [|lia].
     pose proof (zceil_bounds (t * p) q) as B.
     assert (Hc0 : 0 <= zceil (t * p) q) by nia.
     exists (Z.to_nat (zceil (t * p) q)). rewrite Z2Nat.id by exact Hc0.
     split; [reflexivity|]. split; [reflexivity|]. split; [exact B|]. split; [|split; intros; nia].
     apply Nat2Z.inj_le. rewrite Z2Nat.id by exact Hc0. fold t. nia.
-  - intros H1. destruct (Z.ltb_spec p 0); [lia|]. destruct (Z.leb_spec (t * Zpos q) p); [lia|]. cbn [orb].
+  - intros H1. destruct (Z.ltb_spec p 0); [lia|]. destruct (Z.ltb_spec (t * Zpos q) p); [lia|].
+    destruct (Z.eqb_spec t 0); [nia|]. cbn [orb]. destruct (Z.eqb_spec p (t * Zpos q)); [lia|].
     destruct (Z.ltb_spec p (Zpos q)); [lia|].
     pose proof (Z.div_mod p (Zpos q) ltac:(lia)) as E. pose proof (Z.mod_pos_bound p (Zpos q) ltac:(lia)) as B.
     assert (Hc0 : 0 <= p / Zpos q) by (apply Z.div_pos; lia).
@@ -641,30 +654,39 @@ Proof.
     split; apply Nat2Z.inj_le || apply Nat2Z.inj_lt; rewrite ?Z2Nat.id by exact Hc0; fold t; cbn; nia.
 Qed.
 
-(* the code and the property read every request alike, except p/q = prod(shape) (open finding C20-N3) *)
-Theorem norm_request_eq_spec (total : nat) p q :
-  p <> Z.of_nat total * Zpos q -> norm_request total p q = norm_request_spec total p q.
+(* saturated exactly when the request equals the (positive) tensor size; the count is then the size itself *)
+Theorem norm_request_saturated (total : nat) p q c :
+  norm_request total p q = Some (true, c) <-> (p = Z.of_nat total * Zpos q /\ (0 < total)%nat /\ c = total).
 Proof.
-  intros H. unfold norm_request, norm_request_fl, norm_request_spec.
-  destruct (Z.leb_spec (Z.of_nat total * Zpos q) p), (Z.ltb_spec (Z.of_nat total * Zpos q) p); try lia; reflexivity.
+  split.
+  - unfold norm_request, norm_request_fl. set (t := Z.of_nat total).
+    destruct (_ || _ || (t =? 0)) eqn:G; [discriminate|].
+    apply orb_false_iff in G as [_ G]. apply Z.eqb_neq in G.
+    destruct (Z.eqb_spec p (t * Zpos q)) as [E|E].
+    + intros H. inversion H. unfold t in *. repeat split; auto; lia.
+    + destruct (p <? Zpos q); discriminate.
+  - intros (-> & H & ->). now apply norm_request_cases.
 Qed.
-Theorem norm_request_at_size (total : nat) q :
-  norm_request total (Z.of_nat total * Zpos q) q = None /\
-  norm_request_spec total (Z.of_nat total * Zpos q) q = Some (if (total =? 0)%nat then 0%nat else total).
+
+(* after the repair of C20-N3 the code reads EVERY request as the property does (the count; no exception any more) *)
+Theorem norm_request_eq_spec (total : nat) p q :
+  option_map snd (norm_request total p q) = norm_request_spec total p q.
 Proof.
   unfold norm_request, norm_request_fl, norm_request_spec. set (t := Z.of_nat total).
-  assert (Ht : 0 <= t) by (unfold t; lia).
-  destruct (Z.ltb_spec (t * Zpos q) 0); [nia|]. rewrite Z.leb_refl, Z.ltb_irrefl. cbn [orb]. split; [reflexivity|].
-  destruct (Z.ltb_spec (t * Zpos q) (Zpos q)) as [Hlt|Hge].
-  - assert (t = 0) by nia. destruct total; [|unfold t in *; lia]. cbn. reflexivity.
-  - rewrite Z.div_mul by lia. unfold t. rewrite Nat2Z.id. destruct total; [unfold t in *; cbn in Hge; lia|reflexivity].
+  destruct (_ || _ || (t =? 0)) eqn:G; [reflexivity|].
+  apply orb_false_iff in G as [G G0]. apply orb_false_iff in G as [G1 G2].
+  apply Z.eqb_neq in G0. apply Z.ltb_ge in G1, G2.
+  assert (Ht : 0 < t) by (unfold t in *; lia).
+  destruct (Z.eqb_spec p (t * Zpos q)) as [E|E]; cbn [option_map snd].
+  - destruct (Z.ltb_spec p (Zpos q)); [nia|]. rewrite E, Z.div_mul by lia. unfold t. now rewrite Nat2Z.id.
+  - destruct (p <? Zpos q); reflexivity.
 Qed.
 
 (* sptenrand(shape, density = p/q) after repair C20-N1: the count the code derives IS floor(prod(shape) * density)
-   for every density in (0, 1) and every non-empty shape (a count of zero included) *)
+   for every density in (0, 1) and every non-empty shape (a count of zero included); never saturated *)
 Theorem density_count (total : nat) (p : Z) (q : positive) :
   (0 < total)%nat -> 0 < p < Zpos q ->
-  sptenrand_count_impl total p q = Some (sptenrand_count_spec total p q).
+  sptenrand_count_impl total p q = Some (false, sptenrand_count_spec total p q).
 Proof.
   intros Ht Hp. unfold sptenrand_count_impl, sptenrand_count_fl, sptenrand_guard, sptenrand_count_spec.
   destruct (Z.ltb_spec 0 p); [|lia]. destruct (Z.leb_spec p (Zpos q)); [|lia]. cbn [andb].
@@ -673,26 +695,48 @@ Proof.
   assert (Hc0 : 0 <= c) by (apply Z.div_pos; nia).
   assert (Hc1 : c < t) by (apply Z.div_lt_upper_bound; nia).
   unfold norm_request, norm_request_fl. fold t.
-  destruct (Z.ltb_spec c 0); [lia|]. destruct (Z.leb_spec (t * 1) c); [lia|]. cbn [orb].
+  destruct (Z.ltb_spec c 0); [lia|]. destruct (Z.ltb_spec (t * 1) c); [lia|].
+  destruct (Z.eqb_spec t 0); [lia|]. cbn [orb]. destruct (Z.eqb_spec c (t * 1)); [lia|].
   destruct (Z.ltb_spec c 1).
   - assert (c = 0) by lia. replace c with 0 by lia. rewrite Z.mul_0_r. reflexivity.
   - now rewrite Z.div_1_r.
 Qed.
 
-(* the guard: a density outside (0, 1] is rejected; density = 1 is admitted by the guard and by the property but
-   rejected by from_function (open finding C20-N3) *)
+(* the guard: a density outside (0, 1] is rejected; density = 1 is admitted by the guard, by the property AND (after
+   the repair of C20-N3) by from_function: the saturated request, all prod(shape) entries *)
 Theorem density_guard (total : nat) (p : Z) (q : positive) :
   (p <= 0 \/ Zpos q < p -> sptenrand_count_impl total p q = None /\ sptenrand_request_spec total p q = None) /\
-  (p = Zpos q -> sptenrand_count_impl total p q = None /\ sptenrand_request_spec total p q = Some total).
+  (p = Zpos q -> (0 < total)%nat ->
+   sptenrand_count_impl total p q = Some (true, total) /\ sptenrand_request_spec total p q = Some total).
 Proof.
   unfold sptenrand_count_impl, sptenrand_count_fl, sptenrand_request_spec, sptenrand_guard, sptenrand_count_spec. split.
   - intros [H|H].
     + destruct (Z.ltb_spec 0 p); [lia|]. cbn [andb]. auto.
     + destruct (Z.leb_spec p (Zpos q)); [lia|]. rewrite andb_false_r. auto.
-  - intros ->. destruct (Z.ltb_spec 0 (Zpos q)); [|lia]. rewrite Z.leb_refl. cbn [andb].
-    rewrite Z.div_mul by lia. rewrite Nat2Z.id. split; [|reflexivity].
-    unfold norm_request, norm_request_fl.
-    destruct (Z.ltb_spec (Z.of_nat total) 0); [lia|]. destruct (Z.leb_spec (Z.of_nat total * 1) (Z.of_nat total)); [reflexivity|lia].
+  - intros -> Ht. destruct (Z.ltb_spec 0 (Zpos q)); [|lia]. rewrite Z.leb_refl. cbn [andb].
+    rewrite Z.div_mul by lia. rewrite Nat2Z.id. destruct (Nat.eqb_spec total 0); [lia|]. cbn [negb]. split; [|reflexivity].
+    apply norm_request_cases; [exact Ht|lia].
+Qed.
+
+(* sptenrand's reading of EVERY density equals the property's (count; rejected alike) - no exception any more *)
+Theorem density_eq_spec (total : nat) (p : Z) (q : positive) :
+  option_map snd (sptenrand_count_impl total p q) = sptenrand_request_spec total p q.
+Proof.
+  unfold sptenrand_count_impl, sptenrand_count_fl, sptenrand_request_spec, sptenrand_count_spec.
+  destruct (sptenrand_guard p q) eqn:G; [|reflexivity]. cbn [andb].
+  rewrite norm_request_eq_spec. unfold norm_request_spec.
+  unfold sptenrand_guard in G. apply andb_true_iff in G as [G1 G2]. apply Z.ltb_lt in G1. apply Z.leb_le in G2.
+  set (t := Z.of_nat total). set (c := t * p / Zpos q).
+  assert (Ht : 0 <= t) by (unfold t; lia).
+  assert (Hc0 : 0 <= c) by (apply Z.div_pos; nia).
+  assert (Hc1 : c <= t) by (apply Z.div_le_upper_bound; nia).
+  destruct (Z.ltb_spec c 0); [lia|]. destruct (Z.ltb_spec (t * 1) c); [lia|]. cbn [orb].
+  destruct (Nat.eqb_spec total 0) as [E|E].
+  - destruct (Z.eqb_spec t 0); [reflexivity|unfold t in *; lia].
+  - destruct (Z.eqb_spec t 0); [unfold t in *; lia|]. cbn [negb].
+    destruct (Z.ltb_spec c 1).
+    + assert (c = 0) by lia. replace c with 0 by lia. rewrite Z.mul_0_r. reflexivity.
+    + now rewrite Z.div_1_r.
 Qed.
 
 (* the double product is exact: the faithful count is the exact-rational one *)
